@@ -271,6 +271,21 @@ func (db *DB) Close() error {
 	return nil
 }
 
+// Abandon is called when the owner stops using this database instance but goes
+// on running (an operator that is deployed again opens a new instance). The
+// checkpoints the instance handed out may still be restored - by the new
+// instance, or by another operator when the key group ranges moved - so the
+// table files of its checkpoints and of its current levels must outlive it:
+// the garbage collector, which deletes a table file when the last table naming
+// it in this process is collected, leaves them alone. Whoever restores them
+// becomes responsible for deleting them (after asking the neighbours).
+func (db *DB) Abandon() {
+	db.mu.Lock()
+	defer db.mu.Unlock()
+	db.sstables.KeepFiles()
+	db.checkpoints.KeepFiles()
+}
+
 func (db *DB) Diagnostics() string {
 	var sb strings.Builder
 	sb.WriteString(db.mtables.Diagnostics())
